@@ -174,6 +174,7 @@ type exprGen struct {
 	fault   string            // class of the planted fault ("" if none was planted)
 	atoms   bool              // allow @-constants
 	parenP  int               // probability (percent) of a redundant parenthesis
+	custom  func(class byte) *dsl.Expr // optional atom source replacing the ExprWorld atoms
 }
 
 func (g *exprGen) lbl(s string) string { g.n++; return fmt.Sprintf("%s#%d", s, g.n) }
@@ -209,6 +210,11 @@ func (g *exprGen) injectedName(class byte) string {
 // atom of the wanted class.
 func (g *exprGen) atom(class byte) *dsl.Expr {
 	t := g.t
+	if g.custom != nil {
+		if e := g.custom(class); e != nil {
+			return e
+		}
+	}
 	if ls := g.locals[class]; len(ls) > 0 && pct(t, g.lbl("uselocal"), 25) {
 		return dsl.Var(ls[uni(t, g.lbl("local"), 0, len(ls)-1)])
 	}
